@@ -499,14 +499,14 @@ def boundary_sequences(rng, tier):
                 out.append({"specs": [csm, r, x, gen_frame(rng, "req", mm, [], False)], "maxmsg": mm, "npend": 1, "role": "client"})
             # the same with a write backlog, and on connections opened by concurrent first requests
             x2 = gen_frame(rng, k, mm, [], False)
-            out.append({"specs": [csm, x2], "maxmsg": mm, "npend": 2, "role": "client", "backlog": True})
-            out.append({"specs": [csm, x2], "maxmsg": mm, "npend": 2, "role": "client", "spawn": "concurrent", "backlog": mm == 64})
+            out.append({"specs": [csm, x2], "maxmsg": mm, "npend": 2, "role": "client", "backlog": True, "few": True})
+            out.append({"specs": [csm, x2], "maxmsg": mm, "npend": 2, "role": "client", "spawn": "concurrent", "backlog": mm == 64, "few": True})
     # signalling messages with token and diagnostic payload, across the 13 / 269 boundaries
     for code, k in ((PING, "ping"), (PONG, "pong"), (RELEASE, "release"), (CSM, "csm")):
         for body in (2, 12, 13, 268, 269):
             csm = gen_frame(rng, "csm", 1 << 20, [], False)
             x = sized(k + "+pay", rng, code, list(rng.randbytes(rng.choice([0, 2, 8]))), [], body)
-            out.append({"specs": [csm, x, gen_frame(rng, "req", 1200, [], False), gen_frame(rng, "ping", 1200, [], False)], "maxmsg": 1 << 20, "npend": 2, "role": "client"})
+            out.append({"specs": [csm, x, gen_frame(rng, "req", 1200, [], False), gen_frame(rng, "ping", 1200, [], False)], "maxmsg": 1 << 20, "npend": 2, "role": "client", "few": True})
     # pipelining: many complete frames in one segment
     for n in (100, 300, 1500) if tier == "thorough" else (100, 300):
         specs = pipelined(rng, n)
@@ -576,6 +576,8 @@ def build_cases(rng, seqs, heads_iter, want_single=True):
             cutss = [[total] if n == 1 else [mid, total - mid] for n in sq["pieces"]]
         else:
             cutss = chunkings(rng, [f["b"] for f in frames], want_single)
+            if sq.get("few") and len(cutss) > 2:
+                cutss = [cutss[0], cutss[-1]]  # in one piece; cut inside headers and tokens
         for cuts in cutss:
             cases.append(
                 {
@@ -743,7 +745,7 @@ def work(rep, args):
         # ---- inputs for the evaluator (generated; what is expected comes from TLC)
         sers = ser_cases(rng, args.tier)
         seqs = boundary_sequences(rng, args.tier)
-        nrand = 100 if quick else 3000
+        nrand = 90 if quick else 3000
         nbig = 0
         for i in range(nrand):
             big_ok = (nbig < (3 if quick else 30)) and rng.random() < 0.1
